@@ -68,7 +68,7 @@ def gen(tier, rnd):
         for k in range(1, len(tbase) + 1):
             case(tbase[:k] + ['F'], to, tcp=1)
         case(tbase, to, 1, tcp=1)
-    for _ in range(600 if thorough else 60):
+    for _ in range(5000 if thorough else 60):
         to = rnd.choice((1, 2, 10))
         T = to * 1000
         ops, conn, heldp = [], set(), set()
@@ -102,7 +102,7 @@ def gen(tier, rnd):
             ops.append('F')
         case(ops, to, rnd.choice((0, 0, 2)), tcp=1)
     # 4. random histories
-    for _ in range(1500 if thorough else 120):
+    for _ in range(10000 if thorough else 120):
         to = rnd.choice((1, 2, 10, 0))
         T = (to or 300) * 1000
         mi = rnd.choice((0, 0, 1, 2, 3))
